@@ -377,10 +377,10 @@ func (t *htmlTemplate) processRange(node *Node, attr *Attr, tokenBuf *strings.Bu
 	defer t.clearCurrentAttr(node, currentIsRange)
 
 	// :range='all', :range="all-but-first"
-	attrValue = strings.TrimPrefix(attrValue, "'")
-	attrValue = strings.TrimSuffix(attrValue, "'")
-	attrValue = strings.TrimPrefix(attrValue, "\"")
-	attrValue = strings.TrimSuffix(attrValue, "\"")
+	// 只去掉属性值自身的一对引号 (值的内容可以以另一种引号的字符串字面量开头或结尾)
+	if n := len(attrValue); n >= 2 && (attrValue[0] == '\'' || attrValue[0] == '"') && attrValue[n-1] == attrValue[0] {
+		attrValue = attrValue[1 : n-1]
+	}
 	indexName, itemName, objName, err := extractRange(attrValue)
 	if err != nil {
 		return errors.Errorf("invalid syntax %v [%v] (at position %v to %v): %w",
